@@ -310,6 +310,14 @@ func VerifHarness_C08_malformed_envelope() {
 	}
 	head := heads[verifrt.Choose("envelope", len(heads))]
 	script := append(append([]byte{}, head...), verifrt.Bytes("tail", n)...)
+	if verifrt.Choose("count-is-a-five-byte-number", 2) == 1 {
+		// second shape: the item after the marker is a push of five arbitrary bytes (a script number
+		// up to 2^39), which the envelope parser takes for the number of protocol ids that follow
+		script = append(append(append([]byte{}, head...), 0x05), verifrt.Bytes("count", 5)...)
+		verifrt.Reach("C08.malformed-envelope.five-byte-count")
+	}
+	// what the filter allocates for a script stays in proportion to the script
+	verifrt.AllocObligation("C08.contracts.alloc.proportional-to-the-script", 1<<20, 64, len(script))
 	tx := wire.NewMsgTx(1)
 	tx.AddTxOut(wire.NewTxOut(1, bitcoin.Script(script)))
 	var got bool
